@@ -206,6 +206,14 @@ shorts_case('parallel_and_to_reference', lambda g: Network([_src(g), Branch('a',
 shorts_case('element_parallel_to_a_short', lambda g: Network([_src(g), Branch('a', 'b', elm.impedance('Z0', g.complex('Z0'))), Branch('b', 'c', elm.short_circuit('S1')),
                                                              Branch('c', 'b', elm.impedance('Zp', g.complex('Zp'))), Branch('c', '0', elm.impedance('Z1', g.complex('Z1')))], '0'),
             ['0', 'a'], ['Vs', 'Z0', 'Z1'], bridged=('Zp',))
+# a short from a node to the reference listed first, a second short leaving from the same node (its first terminal) listed later:
+# after the first contraction the second one connects the reference node itself
+shorts_case('to_reference_then_onwards', lambda g: Network([_src(g), Branch('a', 'b', elm.impedance('Z0', g.complex('Z0'))), Branch('b', '0', elm.short_circuit('S1')),
+                                                            Branch('b', 'c', elm.short_circuit('S2')), Branch('c', 'd', elm.impedance('Z1', g.complex('Z1'))),
+                                                            Branch('d', '0', elm.impedance('Z2', g.complex('Z2')))], '0'), ['0', 'a', 'd'], ['Vs', 'Z0', 'Z1', 'Z2'])
+shorts_case('onwards_then_to_reference', lambda g: Network([_src(g), Branch('a', 'b', elm.impedance('Z0', g.complex('Z0'))), Branch('c', 'b', elm.short_circuit('S2')),
+                                                            Branch('0', 'b', elm.short_circuit('S1')), Branch('c', 'd', elm.impedance('Z1', g.complex('Z1'))),
+                                                            Branch('d', '0', elm.impedance('Z2', g.complex('Z2')))], '0'), ['0', 'a', 'd'], ['Vs', 'Z0', 'Z1', 'Z2'])
 shorts_case('kept_short', lambda g: Network([_src(g), Branch('a', 'b', elm.short_circuit('S1')), Branch('b', 'c', elm.short_circuit('K')),
                                              Branch('c', '0', elm.impedance('Z1', g.complex('Z1')))], '0'), ['0', 'c'], ['Vs', 'Z1', 'K'], keep_ids=('K',))
 
@@ -345,7 +353,7 @@ class port_impedance_with_ideal_source:
                 'across the ideal voltage source': eq(result[1], 0)}
 
 
-@contract('CircuitCalculator.Network.NodalAnalysis.node_analysis.open_circuit_impedance', props=['C06'], bounded='one topology with a node that is connected only through an open branch (e.g. a capacitor at w = 0)')
+@contract('CircuitCalculator.Network.NodalAnalysis.node_analysis.open_circuit_impedance', props=['C06', 'C03'], bounded='one topology with a node that is connected only through an open branch (e.g. a capacitor at w = 0)')
 class port_impedance_with_dangling_node:
     def inputs(g):
         return dict(net=Network([Branch('a', '0', elm.open_circuit('C_at_dc')), Branch('b', '0', elm.resistor('R1', g.pos('R1'))),
@@ -385,7 +393,7 @@ class exempt_short_is_left_untouched:
         return out
 
 
-@contract('CircuitCalculator.Network.NodalAnalysis.node_analysis.open_circuit_impedance', props=['C06'], bounded='one topology with two dangling nodes sorted before the queried node')
+@contract('CircuitCalculator.Network.NodalAnalysis.node_analysis.open_circuit_impedance', props=['C06', 'C03'], bounded='one topology with two dangling nodes sorted before the queried node')
 class port_impedance_with_two_dangling_nodes:
     def inputs(g):
         return dict(net=Network([Branch('a', '0', elm.open_circuit('Ca')), Branch('b', 'a', elm.open_circuit('Cb')), Branch('c', '0', elm.resistor('R1', g.pos('R1'))),
